@@ -291,7 +291,12 @@ pub fn run_case(ctx: &mut Ctx, fam: &str, _k: u64, r: &mut Rng) {
         } else if c < 80 {
             let live = h.live();
             let n = *r.pick(&live);
-            h.clear(n, r.chance(1, 2));
+            if r.chance(1, 4) {
+                // not a clear but a gradient written by the caller: later passes add to it
+                h.install(n, r);
+            } else {
+                h.clear(n, r.chance(1, 2));
+            }
             clears += 1;
         } else if c < 88 {
             let live = h.live();
